@@ -165,6 +165,9 @@ func c14Templates() map[string][]gen.Node {
 		"interpolation":         e(&gen.EInterp{Parts: []gen.Expr{&gen.EStr{S: "a "}, bin("+", nm("n"), num(1)), &gen.EStr{S: " b "}, nm("s")}}),
 		"group":                 e(bin("*", &gen.EGroup{X: bin("+", num(1), num(2))}, num(3))),
 		"strings":               e(bin("~", str("it"), bin("~", str("say \"hi\""), str("plain")))),
+		// b-and, b-or and b-xor are operators; b - andx, b - orx and b - xory are differences, however they are laid out
+		"minus-before-operator-like-names": {tx("["), pr(bin("-", nm("b"), nm("orx"))), tx("]["), pr(bin("-", nm("b"), nm("andx"))), tx("]["), pr(bin("-", nm("b"), nm("xory"))), tx("]["),
+			pr(bin("+", bin("-", nm("b"), nm("order2")), bin("b-or", nm("b"), nm("orx")))), tx("]["), pr(bin("-", nm("nb"), nm("andx"))), tx("]")},
 		// a backslash is a character like any other in either kind of quotes: there are no escape sequences
 		"backslash-strings": {tx("["), pr(bin("~", str("C:\\temp\\new"), bin("~", str("a\\nb"), bin("~", str("\\"), bin("~", str("\\\\"), str("t\\r\\x41\\u0041\\0")))))), tx("]["), pr(str("x\\")), tx("]["),
 			pr(&gen.EInterp{Parts: []gen.Expr{&gen.EStr{S: "i\\t"}, nm("n"), &gen.EStr{S: "\\n"}}}), tx("]")},
@@ -190,7 +193,7 @@ func c14Aux() map[string]*gen.Template {
 
 func c14Ctx() map[string]interface{} {
 	return map[string]interface{}{"n": 3, "s": "abc", "t": true, "f": false, "arr": []int{1, 2, 3}, "h": map[string]interface{}{"k": []int{7}}, "obj": gen.NewThing(), "w": "W",
-		"index": false, "inx": 2, "order": []int{1, 2}, "isle": 0, "nota": "andx", "andy": "and"}
+		"index": false, "inx": 2, "order": []int{1, 2}, "isle": 0, "nota": "andx", "andy": "and", "b": 9, "nb": 20, "orx": 2, "andx": 3, "xory": 1, "order2": 4}
 }
 
 func (p *c14) Init(tier string, seed int64) {
